@@ -1,7 +1,7 @@
 (* Property C09 -- dot-segment normalisation.  Statements only. *)
 From Coq Require Import List NArith Bool Arith.
 Import ListNotations.
-Require Import V.Regex V.Parse V.PathSpec V.Splice V.Setters V.Iter V.PathQ V.ParseProofs V.PathMut V.PathMutProofs V.C09Proofs V.C12Proofs V.NormProofs V.Rfc V.ResolveProofs4 V.NormalizedProofs.
+Require Import V.Regex V.Parse V.PathSpec V.Splice V.Setters V.Iter V.PathQ V.ParseProofs V.PathMut V.PathMutProofs V.C09Proofs V.C12Proofs V.NormProofs V.Rfc V.ResolveProofs4 V.NormalizedProofs V.NormIdem.
 Local Open Scope nat_scope.
 
 (* the normalized-segment iterator of the model (a stack of ranges, as in the Rust code) computes
@@ -56,6 +56,12 @@ Print Assumptions C09_normalize_text.
 Theorem C09_normalize_keeps_absoluteness : forall start0 fa v, is_abs (normalize1 start0 fa v) = is_abs v.
 Proof. exact normalize1_abs. Qed.
 Print Assumptions C09_normalize_keeps_absoluteness.
+
+(* in-place normalisation is IDEMPOTENT at text level, for EVERY byte string and every handle context (with
+   C09_normalize_in_place: a second normalize() through any handle leaves the buffer unchanged) *)
+Theorem C09_normalize_idempotent : forall start0 fa v, normalize1 start0 fa (normalize1 start0 fa v) = normalize1 start0 fa v.
+Proof. exact normalize1_idempotent. Qed.
+Print Assumptions C09_normalize_idempotent.
 
 (* THE COPYING normalized() (PathImpl::normalized: a fold of symbolic pushes into a fresh buffer, each through a fresh
    whole-buffer handle, then the closing empty segment): on every path free of '?' and '#' that has no empty segment
